@@ -191,14 +191,24 @@ func (g *GenResult) GenPage(r *rand.Rand, nl int) *PageL {
 		if r.Intn(5) == 0 {
 			ns = 2
 		}
+		// keep the line inside the page at the widest width estimate (0.6 em per
+		// character): text running past the right edge invites column heuristics
+		// that are C09's subject, not this writer's
+		budget := int(480/(0.6*size)) / ns
 		for s := 0; s < ns; s++ {
 			fi := r.Intn(len(g.Fonts))
 			f := g.Fonts[fi]
 			words := []string{g.Tok.Next()}
+			used := fw.TokenLen
 			for k := 2 + r.Intn(4); k > 0; k-- {
-				words = append(words, f.Word(r))
+				w := f.Word(r)
+				if used+1+len([]rune(w)) > budget-fw.TokenLen-2 {
+					break
+				}
+				words = append(words, w)
+				used += 1 + len([]rune(w))
 			}
-			if r.Intn(2) == 0 {
+			if r.Intn(2) == 0 && used+1+fw.TokenLen <= budget {
 				words = append(words, g.Tok.Next())
 			}
 			txt := strings.Join(words, " ")
@@ -383,6 +393,7 @@ func RandomLayout(r *rand.Rand, revs int) Layout {
 		XRefPredictor: r.Intn(2) == 0,
 		GapsAsFree: r.Intn(3) == 0,
 		ObjStmExtends: r.Intn(3) == 0,
+		Comments: r.Intn(3) == 0, Quotes: r.Intn(3) == 0, TJKern: r.Intn(3) == 0, Forms: r.Intn(3) == 0,
 	}
 	switch r.Intn(4) {
 	case 0:
